@@ -582,6 +582,8 @@ def warping_paths_affinity(s1, s2, window=None, only_triu=False,
     if np is None:
         raise NumpyException("Numpy is required for the warping_paths method")
     s = DTWSettings.for_dtw(s1, s2, window=window, psi=psi, penalty=penalty, use_c=use_c)
+    if s.penalty is None:
+        s.penalty = 0
     r, c = len(s1), len(s2)
     psi_1b, psi_1e, psi_2b, psi_2e = s.split_psi()
     dtw = np.full((r + 1, c + 1), -inf)
